@@ -253,11 +253,16 @@ class Interp:
             return ('ref', root[1])
         if root[0] == 'V':
             return root[1]
+        if root[0] == 'RP':
+            return mk_phi([self.read_loc(st, l) for l in root[1]])
         return TOP
 
     def root_write(self, st, root, v):
         if root[0] == 'L':
             st.env[root[1]] = v
+        elif root[0] == 'RP':
+            for l in root[1]:
+                self.write_loc(st, l, TOP)
         elif root[0] in ('R', 'V'):
             return
         else:
@@ -270,6 +275,8 @@ class Interp:
             # a local holding a reference, projected: go through the reference
             inner = self.read_loc(st, v[1])
             return read_path(inner, path)
+        if v[0] == 'refphi' and path:
+            return mk_phi([read_path(self.read_loc(st, l), path) for l in v[1]])
         return self.rd(st, read_path(v, path))
 
     def rd(self, st, v):
@@ -280,11 +287,19 @@ class Interp:
         if not path:
             self.root_write(st, root, v)
             return
+        if root[0] == 'RP':
+            for (r2, p2) in root[1]:
+                self.write_loc(st, (r2, p2 + path), TOP)
+            return
         cur = self.root_read(st, root)
         if cur[0] == 'ref':
             # projecting through a reference held in a local
             r2, p2 = cur[1]
             self.write_loc(st, (r2, p2 + path), v)
+            return
+        if cur[0] == 'refphi':
+            for (r2, p2) in cur[1]:
+                self.write_loc(st, (r2, p2 + path), TOP)
             return
         self.root_write(st, root, upd(cur, path, v))
 
@@ -307,6 +322,8 @@ class Interp:
                 v = self.read_loc(st, (root, path))
                 if v[0] == 'ref':
                     root, path = v[1]
+                elif v[0] == 'refphi':
+                    root, path = ('RP', v[1]), ()
                 else:
                     root, path = ('O', v), ()
             elif k == 'field':
@@ -353,6 +370,8 @@ class Interp:
         while v[0] == 'ref' and seen < 10:
             v = self.read_loc(st, v[1])
             seen += 1
+        if v[0] == 'refphi':
+            return mk_phi([self.value(st, ('ref', l)) for l in v[1]])
         return v
 
     def operand(self, st, o):
@@ -434,6 +453,9 @@ class Interp:
             if a[0] == 'ref':
                 is_mut = bool(ty and ty['k'] == 'ref' and ty['mut'])
                 args.append(ArgRec(self.at_wrap(a[1], self.value(st, a)), a[1], is_mut, ty))
+            elif a[0] == 'refphi':
+                is_mut = bool(ty and ty['k'] == 'ref' and ty['mut'])
+                args.append(ArgRec(self.value(st, a), (('RP', a[1]), ()), is_mut, ty))
             else:
                 is_mut = bool(ty and ty['k'] == 'ref' and ty['mut'])
                 loc = (('O', a), ()) if (ty and ty['k'] == 'ref') else None
@@ -594,12 +616,23 @@ class Interp:
             return self.join_terms(a, ('obj', b, ()))
         if b[0] == 'obj' and a[0] != 'obj' and b[1] == a:
             return self.join_terms(('obj', a, ()), b)
-        if a[0] == 'ref' or b[0] == 'ref':
+        if a[0] in ('ref', 'refphi') or b[0] in ('ref', 'refphi'):
             # a reference-typed value X returned by a call and a reborrow `&mut *X` are the same reference
             for x, y in ((a, b), (b, a)):
                 if x[0] == 'ref' and y[0] != 'ref' and x[1] == (('O', y), ()):
                     return x
-            return TOP
+            # one of several references (`let d = if .. { &a.f } else { &tmp }`): reads see a phi of the pointees,
+            # a write through it clobbers every candidate (weak update to TOP)
+            locs = []
+            for x in (a, b):
+                if x[0] == 'ref':
+                    locs.append(x[1])
+                elif x[0] == 'refphi':
+                    locs.extend(x[1])
+                else:
+                    return TOP
+            locs = tuple(sorted(set(locs), key=str))
+            return ('refphi', locs) if len(locs) <= 6 else TOP
         return mk_phi([a, b])
 
     def join_states(self, states):
